@@ -77,7 +77,7 @@ func TestC16(t *testing.T) {
 	rec := mon.Open("C16")
 	defer rec.Finish(t)
 	rand.Seed(rec.Seed()) // the allocator shuffles with the global source
-	T := rec.N(30, 400)   // calls per configuration
+	T := rec.N(60, 400)   // calls per configuration
 	caseNo := 0
 	for N := 1; N <= 16; N++ {
 		if !rec.Mine(N) {
